@@ -101,3 +101,24 @@ func TestDebugRigMin(t *testing.T) {
 	b, _ := json.Marshal(c)
 	t.Logf("%s\n%s", v, b)
 }
+
+// TestDebugExcluded prints which finding (if any) excludes a prog replay case
+// on its configuration, per property (development aid).
+func TestDebugExcluded(t *testing.T) {
+	path := os.Getenv("VERIF_DEBUG_EXCL")
+	if path == "" {
+		t.Skip()
+	}
+	rp, err := evid.ReadReplay(path)
+	if err != nil {
+		t.Fatal(err)
+	}
+	var pc progCase
+	if err := json.Unmarshal(rp.Case, &pc); err != nil {
+		t.Fatal(err)
+	}
+	r, _ := refRun(&pc.Case)
+	for _, prop := range []string{"C01", "C07"} {
+		t.Logf("%s on %s: excluded by %q", prop, pc.Cfg, excludedBy(prop, &pc.Case, &r, pc.Cfg))
+	}
+}
